@@ -72,7 +72,7 @@ SLOT_ONLY_V13 = {5: True, 2: False}
 def slots_for(d, v13):
     return [sl for sl in (SLOTS_S2C if d == "s2c" else SLOTS_C2S) if sl not in SLOT_ONLY_V13 or SLOT_ONLY_V13[sl] == v13]
 
-SNAP_RE = re.compile(r"v=(\d),sv=(\d),hs=(\d+),f=([ECRW]*),done=(\d),err=(\d+),ed=(\d+):(\d+):(\d+),lb=(\d),ig=(-?\d+),ce=(\d),se=(\d),ae=(\d),bs=(\d+),ms=(\d+),x=(\d)(\d)(\d)(\d),tk=(-?\d+),sr=(\d),y=(\d)(\d)(\d)(\d),dc=(\d+),cs=([0-9a-f]+)")
+SNAP_RE = re.compile(r"v=(\d),sv=(\d),hs=(\d+),f=([ECRW]*),done=(\d),err=(\d+),ed=(\d+):(\d+):(\d+),lb=(\d),ig=(-?\d+),ce=(\d),se=(\d),ae=(\d),bs=(\d+),ms=(\d+)(?:,[a-z]+=-?\d+)*?,x=(\d)(\d)(\d)(\d),tk=(-?\d+),sr=(\d),y=(\d)(\d)(\d)(\d),dc=(\d+),cs=([0-9a-f]+)")
 STEP_RE = re.compile(r"step:([cs]) m=([HCADR]):(-?\d+):(-?\d+):(\d+) f=(\S) l=(\d+) pre=(\S+) (.*?)post=(\S+) h=(\d)")
 
 
